@@ -50,6 +50,8 @@ def gen_part(rng, start, allow_wild=True):
                 ctrl.append("random")
             elif c < 0.45:
                 ctrl.append("all_local")
+                if rng.random() < 0.6 and "213.47.23.195" not in ctrl:
+                    ctrl.append("213.47.23.195")            # a listed host that the wildcard does not cover
         p["controlled_hosts"] = ctrl
     if rng.random() < 0.7:
         svcs = {}
@@ -287,6 +289,7 @@ def correspondence(ctx):
     probe_switches(ctx, nsgenv, CR)
     probe_goal(ctx, nsgenv, CR)
     probe_required_players(ctx, nsgenv)
+    probe_wildcard_orders(ctx, nsgenv)
     # ---- dynamic addresses: the configured start position is what the game uses for agents joining after re-labellings
     from props import dynprobe
     dynprobe.run(ctx, "C19")
@@ -688,6 +691,59 @@ def probe_required_players(ctx, nsgenv):
     ctx.coverage["required_players_probe"] = stats
 
 
+def probe_wildcard_orders(ctx, nsgenv):
+    """The wildcards of controlled_hosts add to what is listed, whatever the order in which the items are resolved (the reader keeps
+    them in a set, so the order is Python's): every permutation of {all_local, the outside host, random, a local host} handed to the
+    world's view builder must give all local addresses plus every listed address (plus at most one valid start host per 'random')."""
+    import itertools
+    from AIDojoCoordinator.game_components import IP
+    import worldlib as WL
+    stats = {"orders": 0}
+    cfg = nsgenv.base_config("scenario1_small")
+    try:
+        d = nsgenv.start(cfg)
+    except Exception as e:
+        ctx.stage_errors.append(("wildcard order probe", f"{type(e).__name__}: {e}"))
+        return
+    try:
+        g = d.g
+        d.settle()
+        if not hasattr(g, "_data_original"):
+            g._initialize()
+        T = WL.impl_tables(g)
+        local = {WL.n2ip(i) for nt, ips in T["nets"].items() if WL.is_private_value(nt[0]) for i in ips}
+        start_hosts = {WL.n2ip(i) for i in T["start"]}
+        pools = [["all_local", IP("213.47.23.195")], ["all_local", IP("213.47.23.195"), "random"], ["all_local", "random"],
+                 ["random", IP("213.47.23.195"), IP("192.168.1.2")], ["all_local", IP("192.168.1.2"), IP("213.47.23.195")]]
+        for items in pools:
+            for order in itertools.permutations(items):
+                stats["orders"] += 1
+                view = {"known_networks": set(), "known_hosts": set(), "controlled_hosts": list(order), "known_services": {}, "known_data": {}, "known_blocks": {}}
+                replay = {"kind": "wildcard_orders", "order": [str(x) for x in order]}
+                try:
+                    gs = g._create_state_from_view(view)
+                except Exception as e:
+                    ctx.violations.append({"key": "view builder raises on a documented start position", "what": f"controlled_hosts resolved in the order {replay['order']}: {type(e).__name__}: {e}", "replay": replay})
+                    continue
+                ctrl = {str(x) for x in gs.controlled_hosts}
+                want = {str(x) for x in order if isinstance(x, IP)} | (local if "all_local" in order else set())
+                extra = ctrl - want
+                problems = []
+                if not want <= ctrl:
+                    problems.append(f"listed/all_local hosts missing from the initial view: {sorted(want - ctrl)}")
+                if len(extra) > list(order).count("random") or not extra <= start_hosts:
+                    problems.append(f"controlled hosts {sorted(extra)} are neither listed nor valid random start hosts")
+                if "random" in order and "all_local" not in order and not (ctrl & start_hosts):
+                    problems.append("'random' did not yield a start host")
+                if not ctrl <= {str(x) for x in gs.known_hosts}:
+                    problems.append("a controlled host is not a known host")
+                for pr in problems:
+                    ctx.violations.append({"key": "start position wildcards: " + pr.split(":")[0], "what": f"controlled_hosts resolved in the order {replay['order']}: {pr}", "replay": replay})
+    finally:
+        d.close()
+    ctx.coverage["wildcard_order_probe"] = stats
+
+
 def probe_shipped(ctx, nsgenv, CR):
     """The shipped configuration: Defender goal known_blocks {213.47.23.195: 'all_attackers'}."""
     path = os.path.join(CK.REPO, "AIDojoCoordinator", "netsecenv_conf.yaml")
@@ -729,6 +785,15 @@ def replay(ctx, payload):
         nsgenv, WL, WR, CR = _imports()
         c2 = CK.Ctx("C19", "quick", 1)
         probe_role_limits(c2, nsgenv)
+        for v in c2.violations:
+            print(v["what"])
+        if c2.violations:
+            print("VIOLATION property=C19 replay=(this file)")
+        return 1 if c2.violations else 0
+    if payload.get("kind") == "wildcard_orders":
+        nsgenv, WL, WR, CR = _imports()
+        c2 = CK.Ctx("C19", "quick", 1)
+        probe_wildcard_orders(c2, nsgenv)
         for v in c2.violations:
             print(v["what"])
         if c2.violations:
